@@ -6,3 +6,4 @@ import Solvor.Dlx.Theorems
 #print axioms Solvor.Dlx.isCover_iff
 #print axioms Solvor.Dlx.algx_limited_sound
 #print axioms Solvor.Dlx.algx_pure
+#print axioms Solvor.Dlx.algx_mirror_complete
